@@ -109,6 +109,68 @@ def interpret_join(ctx, cls, ps, join_type):
     return out
 
 
+def clause_table(ctx, cls, ps):
+    """prepare_select interpreted on single-table selects over a space of clause values (generative stand-in for the SQLAlchemy select logs every call):
+    each clause of the tree must arrive at the select with its own value - also the falsy ones (LIMIT 0, empty string constants)."""
+    import itertools
+    from ..interp import Interp, Obj, Raised, Env
+    methods = {'SqlalchemyRender': {m.name: m for m in cls.body if isinstance(m, ast.FunctionDef)}}
+    nrows = 0
+
+    def C(v):
+        return Obj('Constant', value=v, alias=None)
+    for limit, offset, distinct, where, group, having, order, mode in itertools.product(
+            (None, 0, 5), (None, 0, 3), (False, True), (None, 'w'), (None, 'g'), (None, 'h'), (None, 'o'), (None, 'FOR UPDATE')):
+        # keep the table small: vary pairs around LIMIT/OFFSET fully, the others one at a time
+        others = [distinct, where, group, having, order, mode]
+        if sum(1 for x in others if x) > 1:
+            continue
+        query = Obj('SaSelect', _fluent=True, _log=[])
+        node = Obj('Select', targets=[Obj('Star')], distinct=distinct, from_table=Obj('Identifier', parts=['t'], alias=None),
+                   where=Obj('Cond', tag='w') if where else None, group_by=[Obj('Col', tag='g')] if group else None, having=Obj('Cond', tag='h') if having else None,
+                   order_by=[Obj('OrderBy', tag='o')] if order else None, limit=C(limit) if limit is not None else None,
+                   offset=C(offset) if offset is not None else None, cte=None, mode=mode, using=None, alias=None, parentheses=False)
+        stubs = {'sa.select': lambda it, *c: query, 'self.to_expression': lambda it, t: ('expr', getattr(t, 'tag', None) if isinstance(t, Obj) and 'tag' in t.attrs else id(t)),
+                 'self.to_table': lambda it, t: ('table', 't'), 'self.to_order_by': lambda it, o: [('order', x.tag) for x in o], 'self.get_alias': lambda it, x: x}
+        it = Interp({'Join': set(), 'Select': set(), 'Identifier': set(), 'Union': set(), 'Intersect': set(), 'Except': set(), 'NativeQuery': set()}, stubs, methods=methods)
+        label = f'limit={limit} offset={offset} distinct={distinct} where={bool(where)} group_by={bool(group)} having={bool(having)} order_by={bool(order)} mode={mode}'
+        try:
+            it.call_function(ps, [Obj('SqlalchemyRender'), node], {}, Env())
+        except Raised as r:
+            ctx.ob('C06.clause-values', label, False, f'prepare_select raises {r.exc_name} on a plain select [{label}]', file=FILE, line=ps.lineno)
+            continue
+        nrows += 1
+        log = query.attrs['_log']
+        calls = {}
+        for n, a, k in log:
+            calls.setdefault(n, []).append((a, k))
+        problems = []
+        if limit is not None and calls.get('limit') != [((limit,), {})]:
+            problems.append(f'LIMIT {limit} arrives as {calls.get("limit")}')
+        if limit is None and 'limit' in calls:
+            problems.append('a LIMIT appears that the tree does not have')
+        if offset and calls.get('offset') != [((offset,), {})]:
+            problems.append(f'OFFSET {offset} arrives as {calls.get("offset")}')
+        if offset is None and 'offset' in calls:
+            problems.append('an OFFSET appears that the tree does not have')
+        if bool(distinct) != ('distinct' in calls):
+            problems.append(f'DISTINCT={distinct} but distinct() called {len(calls.get("distinct", []))}x')
+        if bool(where) != bool(calls.get('filter') or calls.get('where')):
+            problems.append('WHERE is not applied exactly when present')
+        if bool(group) != ('group_by' in calls):
+            problems.append('GROUP BY is not applied exactly when present')
+        if bool(having) != ('having' in calls):
+            problems.append('HAVING is not applied exactly when present')
+        if bool(order) != ('order_by' in calls):
+            problems.append('ORDER BY is not applied exactly when present')
+        if bool(mode) != ('with_for_update' in calls):
+            problems.append('FOR UPDATE is not applied exactly when present')
+        ctx.ob('C06.clause-values', label, not problems,
+               f'[{label}] {"; ".join(problems)}: the rendered select has other clauses than the tree (a falsy value such as LIMIT 0 is still a clause)', file=FILE,
+               line=ps.lineno, witness='select * from t limit 0')
+    ctx.setcount('clause_value_rows', nrows)
+
+
 def run(ctx):
     ctx.explanation = (
         'Exhaustiveness / table agreement between the grammars\' finite vocabularies and the renderer\'s dispatch code: '
@@ -184,6 +246,7 @@ def run(ctx):
         ctx.ob('C06.setop', f'{cn}:unique={uniq}', got == want,
                f'{cn}{"" if uniq else " ALL"} is rendered with {got} instead of {want}: duplicate handling / the set operation changes',
                file=FILE, line=pu.lineno, witness=f'select 1 {cn.upper()}{"" if uniq else " ALL"} select 2')
+    clause_table(ctx, cls, ps)
     # nested set operations: the rendered expression must have the structure of the tree (each link keeps its own ALL flag)
     from ..interp import Interp, Obj, Raised, Env
     SA = {('Union', True): 'union', ('Union', False): 'union_all', ('Intersect', True): 'intersect', ('Intersect', False): 'intersect_all',
